@@ -119,7 +119,10 @@ func (t *SymbolTable) Var(v Variable) string {
 }
 
 func (t *SymbolTable) Clone() *SymbolTable {
-	newTable := *t
+	// copy the elements: a copy of the slice header would share spare capacity with
+	// the receiver, and two clones appending a symbol would overwrite each other
+	newTable := make(SymbolTable, len(*t))
+	copy(newTable, *t)
 	return &newTable
 }
 
